@@ -29,11 +29,46 @@ def main():
         sys.exit(replay(mod, v, args.tier, seed))
     t0 = time.time()
     acc, exhaustive, extra = mod.run(args.tier, seed)
+    if args.tier == "thorough" and not os.environ.get("VERIF_EVIDENCE_OUT"):
+        extra = dict(extra or {})
+        extra.update(hashseed_runs(args.prop, acc))
     rc = core.finish(
         mod.PROPERTY, args.tier, seed, acc, t0, mod.RULE[args.tier] if isinstance(mod.RULE, dict) else mod.RULE,
         exhaustive, mod.ASSUMPTIONS, extra_cov=extra,
     )
     sys.exit(rc)
+
+
+def hashseed_runs(prop, acc):
+    """E3, container-order answer: the quick enumeration is re-executed in fresh interpreters under PYTHONHASHSEED 0..3
+    (iteration order of sets of strings is then an enumerated environment answer); all runs must report the same
+    outcome histogram and no new violation."""
+    import subprocess
+    import tempfile
+    from mc import core
+
+    digests = {}
+    for hs in (0, 1, 2, 3):
+        with tempfile.NamedTemporaryFile(suffix=".json", dir=os.path.join(core.VERIF, "evidence"), prefix=".hs_", delete=False) as tf:
+            out = tf.name
+        env = dict(os.environ, PYTHONHASHSEED=str(hs), VERIF_EVIDENCE_OUT=out, VERIF_TIER="quick")
+        r = subprocess.run([sys.executable, "-m", "mc.run", prop, "--tier", "quick"], cwd=core.VERIF, env=env, capture_output=True, text=True)
+        try:
+            ev = json.load(open(out))
+            cov = ev["coverage"]
+            digests[hs] = (r.returncode, cov["states"], cov["transitions"], core.digest(cov.get("outcome_histogram")), ev.get("violations"))
+        except Exception as e:
+            digests[hs] = ("no evidence", str(e))
+        finally:
+            try:
+                os.remove(out)
+            except OSError:
+                pass
+    vals = set(digests.values())
+    if len(vals) > 1 or any(d[0] != 0 for d in digests.values()):
+        acc.violations.append({"sub": "hashseed/outcome_depends_on_hash_seed", "key": "quick-tier under PYTHONHASHSEED 0..3", "observed": json.dumps(digests), "expected": "identical outcome digests, exit 0",
+                               "case": {"hashseeds": [0, 1, 2, 3]}, "subcheck": "hashseed"})
+    return {"hashseed_runs": {str(k): list(map(str, v)) for k, v in digests.items()}}
 
 
 def replay(mod, v, tier, seed):
